@@ -3,6 +3,9 @@
 set -e
 P=$1; shift
 W=/tmp/rw/main_mut
+# scratch worktree of /repo outside /repo and /verif; created on demand, remove it when done:
+#   git -C /repo worktree remove --force /tmp/rw/main_mut
+[ -d $W ] || { mkdir -p /tmp/rw; git -C /repo worktree add -q --detach $W HEAD; }
 git -C $W checkout -q -- . ; git -C $W checkout -q --detach $(git -C /repo rev-parse HEAD) 2>/dev/null
 git -C $W apply $P
 for c in "$@"; do
